@@ -7,6 +7,7 @@
        mix-in (written from the documentation of `inoculate`) and owlrl called directly.
 (A) `inoculate()` of the real code on blank-node-free ontologies vs Impl `inoculated` (driver op `inoculate`).
 """
+import os
 import random
 
 import owlrl
@@ -27,7 +28,7 @@ AX_PROPS = None
 def load_axiom_tables(ctx):
     global AX_CLASSES, AX_PROPS
     import ast
-    src = open("/repo/pyshacl/rdfutil/consts.py").read()
+    src = open(os.path.join(os.environ.get("VERIF_REPO", "/repo"), "pyshacl/rdfutil/consts.py")).read()
     # the documented selection: RDFS / OWL vocabulary classes and properties (read from the same source the Generated table is)
     ns = {"OWL": str(OWL), "RDFS": str(RDFS)}
     lists = {}
